@@ -30,7 +30,7 @@ for prop, oblig in (('C01', 'O-write'), ('C02', 'O-cut'), ('C03', 'O-frame')):
                   data=Bytes(0, None, mutable=True)),
              name='%s/tt3._write_ndef_data' % prop,
              requires=WELL_FORMED_T3 + ['len(data) <= 16 * t3_nmaxb(self._tag.mem)'],
-             ensures=ens, raises={},
+             ensures=ens, raises={}, budget_s=1800,
              loops={(T3Q, 'For', 0): LoopSpec(
                  invariant=['self._tag.mem == self._tag.mem[0:16] + bytes(data[0:16 * (%s)]) + '
                             'self._tag.mem0[16 * (1 + %s):]' % (W, W),
@@ -109,7 +109,7 @@ for prop in ('C01', 'C02', 'C03'):
              name='%s/tt4._write_ndef_data' % prop,
              requires=T4_INV + ['len(data) <= self._capacity',
                                 't4_view(%s, self._nlen_size) != NO_NDEF' % F] + extra,
-             ensures=ens, raises={},
+             ensures=ens, raises={}, budget_s=1800,
              loops={(T4W, 'While', 0): LoopSpec(
                  invariant=['%s == bytes(data[0:offset]) + %s[offset:]' % (F, F0),
                             'offset >= 0 and offset <= len(data)',
@@ -226,7 +226,7 @@ for prop in ('C01', 'C03'):      # C02 for Type 2 stays a bounded stand-in: the 
                                            mem=Ref('self._tag_memory.img'), mem0=Ref('self._tag_memory.img'),
                                            off=Ref('self._ndef_tlv_offset'), end=Int(16, 2056), a=Int(0, 0x80000),
                                            b=Int(0, 0x80000), unit=4, goal=Ref('data'), syncs=0,
-                                           check_cut=(prop == 'C02'))),
+                                           check_cut=(prop == 'C02'), inside=False)),
                   data=Bytes(0, None, mutable=True)),
              name='%s/tt2._write_ndef_data' % prop, setup=t2_setup,
              requires=['%s.end == %s.img[14] * 8 + 16 and %s.end <= len(%s.img)' % ((IMG,) * 4),
@@ -345,7 +345,7 @@ for prop in ('C01', 'C03'):
                                            mem=Ref('self._tag_memory.img'), mem0=Ref('self._tag_memory.img'),
                                            off=Ref('self._ndef_tlv_offset'), end=Int(12, 2048), a=Int(0, 0x800),
                                            b=Int(0, 0x800), unit=OneOf(1, 8), goal=Ref('data'), syncs=0,
-                                           check_cut=False)),
+                                           check_cut=False, inside=False)),
                   data=Bytes(0, None, mutable=True)),
              name='%s/tt1._write_ndef_data' % prop, setup=t2_setup,
              requires=['(%s.img[10] + 1) * 8 <= len(%s.img)' % (IMG, IMG), 'len(%s.img) %% 8 == 0' % IMG,
@@ -397,3 +397,62 @@ for _mode, _hr0, _u in (('blocks', 0x12, 8), ('bytes', 0x11, 1)):
                  havoc={'self._tag.mem': '_C[0:%d * _k] + _S[%d * _k:]' % (_u, _u),
                         'self._data_from_tag': 'bytearray(_C[0:%d * _k] + _S[%d * _k:len(_C)])' % (_u, _u),
                         'self._tag.writes': Int(0, None)})})
+
+
+# ---------------------------------------------------------------- Type 1/2 write path with ONE reserved range INSIDE
+# the message area (behind the TLV header: off + 4 <= a < b <= end) - e.g. the lock/OTP octets 104..127 of every
+# dynamic memory Type 1 Tag, or a memory control TLV of a Type 2 Tag.  The data loop's invariant is the closed form
+# of "value octets skip the range": before the range is reached the image is c[0:s] + data[0:k] + c[s+k:], after it
+# c[0:s] + data[0:a-s] + c[a:b] + data[a-s:k] + c[b+k-(a-s):], and the running offset has jumped by b - a.
+PLACED = ('(_c[0:_s] + bytes(data[0:_k]) + _c[_s + _k:]) if _k <= %s.a - _s else '
+          '(_c[0:_s] + bytes(data[0:%s.a - _s]) + _c[%s.a:%s.b] + bytes(data[%s.a - _s:_k]) + '
+          '_c[%s.b + _k - (%s.a - _s):])' % ((IMG,) * 7))
+OFFS = '(_s if _k <= %s.a - _s else _s + %s.b - %s.a)' % ((IMG,) * 3)
+for _mod, _fn, _unit, _first, _endx, _maxa in (
+        (T2, T2W, 4, 16, '%s.img[14] * 8 + 16' % IMG, 0x80000),
+        (T1M, T1W, 8, 12, '(%s.img[10] + 1) * 8' % IMG, 0x800)):     # dynamic memory tags write 8-octet blocks
+    _tt = 'tt2' if _mod == T2 else 'tt1'
+    for prop in ('C01', 'C03'):
+        ens = {'C01': [('O-write.view', 'view_is(t12_view_in(%s.mem, %s.off, %s.end, %s.a, %s.b), old(bytes(data)))'
+                                        % ((IMG,) * 5)),
+                       ('O-write.flushed', '%s.mem == %s.img' % (IMG, IMG))],
+               'C03': [('O-frame.before', '%s.mem[0:%s.off + 1] == %s.mem0[0:%s.off + 1]' % ((IMG,) * 4)),
+                       ('O-frame.behind', '%s.mem[%s.end:] == %s.mem0[%s.end:]' % ((IMG,) * 4)),
+                       ('O-frame.reserved', '%s.mem[%s.a:%s.b] == %s.mem0[%s.a:%s.b]' % ((IMG,) * 6))]}[prop]
+        loops = {(_fn, 'For', 0): LoopSpec(
+                     entry={'_s': 'offset', '_c': 'bytes(self._tag_memory.img)'},
+                     invariant=['offset == %s' % OFFS, '%s.img == %s' % (IMG, PLACED), '%s.mem == _c' % IMG],
+                     havoc={'offset': OFFS, '%s.img' % IMG: PLACED}),
+                 (_fn, 'While', 0): LoopSpec(
+                     entry={'_o': 'offset'},
+                     invariant=['offset >= _o', 'offset + %s <= %s.b or offset == _o' % ('index' if _tt == 'tt2' else 'i', IMG),
+                                'offset == _o or _o + %s == %s.a' % ('index' if _tt == 'tt2' else 'i', IMG)],
+                     decreases='%s.b - (offset + %s)' % (IMG, 'index' if _tt == 'tt2' else 'i'),
+                     havoc={'offset': Int(0, None)})}
+        if _tt == 'tt2':
+            loops[(_fn, 'While', 1)] = LoopSpec(entry={'_o': 'offset'},
+                                                invariant=['offset >= _o', 'offset <= max(_o, %s.b)' % IMG],
+                                                decreases='0x80000 - offset', havoc={'offset': Int(0, None)})
+        else:
+            loops[(_fn, 'While', 1)] = LoopSpec(entry={'_o': 'offset', '_ci': 'bytes(self._tag_memory.img)'},
+                                                invariant=['offset >= _o', '%s.img == _ci' % IMG],
+                                                decreases='tag_memory_size - offset', havoc={'offset': Int(0, None)})
+        contract(_mod + ('Type2Tag' if _tt == 'tt2' else 'Type1Tag') + '.NDEF._write_ndef_data', prop,
+                 dict(self=Obj(_mod + ('Type2Tag' if _tt == 'tt2' else 'Type1Tag') + '.NDEF', _partial=False, _data=None,
+                               _capacity=Int(0, None), _readable=True, _writeable=True, _tag=None,
+                               _ndef_tlv_offset=Int(_first, 2060), _skip_bytes=None,
+                               _tag_memory=Obj('models.tag_models:TagImage', _partial=False, img=Bytes(128, None),
+                                               mem=Ref('self._tag_memory.img'), mem0=Ref('self._tag_memory.img'),
+                                               off=Ref('self._ndef_tlv_offset'), end=Int(_first, 2056),
+                                               a=Int(0, _maxa), b=Int(0, _maxa), unit=_unit, goal=Ref('data'),
+                                               syncs=0, check_cut=False, inside=True)),
+                      data=Bytes(0, None, mutable=True)),
+                 name='%s/%s._write_ndef_data[reserved-inside]' % (prop, _tt), setup=t2_setup,
+                 requires=['%s.end == %s and %s.end <= len(%s.img)' % (IMG, _endx, IMG, IMG),
+                           'len(%s.img) %% 8 == 0' % IMG,
+                           '%s.off + 4 <= %s.a and %s.a < %s.b and %s.b <= %s.end' % ((IMG,) * 6),
+                           't12_view_in(%s.img, %s.off, %s.end, %s.a, %s.b) != NO_NDEF' % ((IMG,) * 5),
+                           # the message fits: capacity as the reader computed it (free octets minus header)
+                           'len(data) + (2 if len(data) < 255 else 4) <= %s.end - %s.off - (%s.b - %s.a)'
+                           % ((IMG,) * 4)],
+                 ensures=ens, raises={}, loops=loops, budget_s=1800)
